@@ -2027,7 +2027,12 @@ class WSGIRequest:
                     return self._stream.read(size)
 
         self.content = StreamWrapper(self._environ["wsgi.input"])
-        self.match_info = {"path_info": environ["PATH_INFO"]}
+        # PATH_INFO is latin-1 decoded (PEP 3333); the path is UTF-8.
+        self.match_info = {
+            "path_info": environ["PATH_INFO"]
+            .encode("iso-8859-1")
+            .decode(DEFAULT_ENCODING)
+        }
 
     @property
     def can_read_body(self):
